@@ -23,15 +23,29 @@ def small_formats(k):
     return [Fmt(s, nw, nf) for s in (True, False) for nw in range(1, k + 1) for nf in range(-1, nw + 2)]
 
 
-def judge_cmp(acc, fxm, fym, xs, ys, kind, part):
+def build(f, cs, shape, by):
+    """by='raw': codes written raw (value type unset); by='value': from the exact values, ints when n_frac <= 0 (integer value type)"""
+    if by == 'raw':
+        return Fxp(np.array(cs, dtype=np.int64).reshape(shape), f.signed, f.n_word, f.n_frac, raw=True)
+    if f.n_frac <= 0:
+        arr = np.array([c << -f.n_frac for c in cs], dtype=np.int64).reshape(shape)
+    else:
+        arr = np.array([f.fvalue(c) for c in cs], dtype=np.float64).reshape(shape)
+    x = Fxp(arr, f.signed, f.n_word, f.n_frac)
+    assert codes(x) == list(cs)
+    return x
+
+
+def judge_cmp(acc, fxm, fym, xs, ys, kind, part, by='raw'):
     """kind: 'ff' Fxp/Fxp (outer broadcast), 'fn' Fxp/number, 'nf' number/Fxp (scalars per y)"""
-    case = {'part': part, 'fx': list(fxm), 'fy': list(fym), 'xs': list(xs), 'ys': list(ys), 'kind': kind}
+    case = {'part': part, 'fx': list(fxm), 'fy': list(fym), 'xs': list(xs), 'ys': list(ys), 'kind': kind, 'by': by}
+    acc.dim('built_by', by)
     xv = [fxm.value(a) for a in xs]
     yv = [fym.value(b) for b in ys]
     lsb = min(Fraction(2) ** -fxm.n_frac, Fraction(2) ** -fym.n_frac)
     try:
-        x = Fxp(np.array(xs, dtype=np.int64).reshape(-1, 1) if kind == 'ff' else np.array(xs, dtype=np.int64), fxm.signed, fxm.n_word, fxm.n_frac, raw=True)
-        y = Fxp(np.array(ys, dtype=np.int64).reshape(1, -1), fym.signed, fym.n_word, fym.n_frac, raw=True)
+        x = build(fxm, xs, (-1, 1) if kind == 'ff' else (-1,), by)
+        y = build(fym, ys, (1, -1), by)
         for name, op in CMP.items():
             if kind == 'ff':
                 acc.transitions += 1
@@ -134,7 +148,7 @@ def neighbours(fxm, a, fym):
 
 def bounds(tier, seed):
     k = 4 if tier == 'quick' else 5
-    return {'comparisons_small': 'all ordered pairs of formats n_word<=%d, n_frac -1..n_word+1 x every code pair (broadcast) x 6 operators, Fxp/Fxp; '
+    return {'comparisons_small': 'all ordered pairs of formats n_word<=%d, n_frac -1..n_word+1 x every code pair (broadcast) x 6 operators, Fxp/Fxp with operands built raw and by value; '
                                  'Fxp/number and number/Fxp for pairs with n_word<=3' % k,
             'comparisons_adjacent': 'format pairs from n_word in %s x n_frac {0, mid, n}: every boundary/walking-bit code of x against the neighbouring '
                                     'codes floor/ceil(+-1) of the y grid, all 3 operand kinds' % (ADJ_WORDS,),
@@ -169,6 +183,7 @@ def run_shard(sh):
         for fym in fs:
             ys = list(range(fym.lo, fym.hi + 1))
             judge_cmp(acc, fxm, fym, xs, ys, 'ff', 'S')
+            judge_cmp(acc, fxm, fym, xs, ys, 'ff', 'S', 'value')
             if fxm.n_word <= 3 and fym.n_word <= 3:
                 judge_cmp(acc, fxm, fym, xs, ys, 'fn', 'S')
                 judge_cmp(acc, fxm, fym, xs, ys, 'nf', 'S')
@@ -184,6 +199,7 @@ def run_shard(sh):
                         continue
                     for kind in ('ff', 'fn', 'nf'):
                         judge_cmp(acc, fxm, fym, [a], ys, kind, 'A')
+                    judge_cmp(acc, fxm, fym, [a], ys, 'ff', 'A', 'value')
     else:
         nw = sh['nw']
         for s in (True, False):
@@ -196,7 +212,7 @@ def replay(case):
     reset_class_state()
     acc = Acc()
     if 'kind' in case:
-        judge_cmp(acc, Fmt(*case['fx']), Fmt(*case['fy']), case['xs'], case['ys'], case['kind'], case['part'])
+        judge_cmp(acc, Fmt(*case['fx']), Fmt(*case['fy']), case['xs'], case['ys'], case['kind'], case['part'], case.get('by', 'raw'))
     else:
         judge_conv(acc, Fmt(*case['fmt']), case['part'])
         if 'conv' in case:
